@@ -5,7 +5,7 @@
 package gnmi
 
 // Every function under contract in this package also serves the properties that depend on the whole package.
-//@ package-props C20
+//@ package-props C20 C12
 
 // reset builds the update queue from the configured values and, unless disabled, files
 // the sync marker at the latest initial timestamp of the configuration, to be emitted
